@@ -11,6 +11,7 @@ def check(ctx):
     rep.floor("functions holding a guard", holders, 6)
     from rules import determinism
     determinism.check(ctx, rep)
+    determinism.check_no_hidden_state(ctx, rep)
     rep.analysed["caches"] = lr.maps
     rep.analysed["functions_returning_guard"] = sorted(lr.returns_guard.values())
     E = [b.id for b in prog.bodies.values() if b.file.endswith(("defs/namespace.rs", "defs/reflection.rs")) and b.rec.get("vis") == "Public"]
